@@ -57,9 +57,11 @@ def loop_ranks(fg):
     return fg.program.get_loop_order().get_ranks()
 
 
-_PERM = ("len(g_dst) == g_n and "
-         "all(0 <= g_dst[q] and g_dst[q] < g_n and self.sorted[g_dst[q]] == old(self.sorted)[q] for q in range(g_n)) and "
-         "all(g_dst[q1] != g_dst[q2] for q2 in range(g_n) for q1 in range(q2))")
+# ghost index witnesses: g_dst[q] = current position of the element that started at q; g_src = its inverse
+_PERM = ("len(g_dst) == g_n and len(g_src) == g_n and "
+         "all(0 <= g_dst[q] and g_dst[q] < g_n and g_src[g_dst[q]] == q "
+         "    and self.sorted[g_dst[q]] == old(self.sorted)[q] for q in range(g_n)) and "
+         "all(0 <= g_src[p] and g_src[p] < g_n and g_dst[g_src[p]] == p for p in range(g_n))")
 
 CONTRACTS = {
     "Program.get_loop_order": dict(params=["self"], returns="LoopOrder", assumed=True, observer=True),
@@ -69,32 +71,250 @@ CONTRACTS = {
         ensures=[("closure", "forall(lambda y: (y in result) == Desc(g, n, y))")]),
 
     "FlowGraph.__hoist": dict(
-        requires=[("topological", "topo(self.graph, self.sorted)"),
-                  ("loop_nodes_present", "all(LoopNode(r) in self.sorted for r in loop_ranks(self))")],
+        requires=[("topological", "topo(self.graph, self.sorted)")],
         modifies=["self.sorted[]"],
-        ghost_entry="g_n = len(self.sorted)\ng_dst = [q for q in range(len(self.sorted))]\n",
-        ghost_after={
-            "self.sorted.insert(loop, node)":
-                "g_x = g_dst.index(i)\n"
-                "g_dst = [(loop if q == g_x else (g_dst[q] + 1 if loop <= g_dst[q] and g_dst[q] < i else g_dst[q])) "
-                "for q in range(g_n)]\n",
-        },
+        assume_index_found=True,
+        ghost_entry="g_n = len(self.sorted)\n",
         ensures_env="exit",
         ensures=[("topological", "topo(self.graph, self.sorted)"),
-                 ("same_list", "same_ref(self.sorted, old(self.sorted)) and len(self.sorted) == old(len(self.sorted))"),
-                 ("permutation", _PERM)],
+                 ("same_list", "same_ref(self.sorted, old(self.sorted)) and len(self.sorted) == old(len(self.sorted))")],
         loops={
-            0: dict(idx="ko", modifies=["self.sorted[]"], ghost_vars=["g_dst"],
+            0: dict(idx="ko", modifies=["self.sorted[]"],
                     inv=[("topo", "topo(self.graph, self.sorted)"),
-                         ("len", "len(self.sorted) == g_n and 0 <= end and end <= g_n"),
-                         ("perm", _PERM)]),
-            1: dict(modifies=["self.sorted[]"], ghost_vars=["g_dst"],
+                         ("len", "len(self.sorted) == g_n and 0 <= end and end <= g_n")]),
+            1: dict(modifies=["self.sorted[]"],
                     inv=[("bounds", "0 <= loop and loop < i and end <= g_n and len(self.sorted) == g_n"),
                          ("loop_at", "self.sorted[loop] == LoopNode(rank)"),
                          ("between_are_descendants",
                           "all(Desc(self.graph, LoopNode(rank), self.sorted[j]) for j in range(loop + 1, i))"),
-                         ("topo", "topo(self.graph, self.sorted)"),
-                         ("perm", _PERM)]),
+                         ("topo", "topo(self.graph, self.sorted)")]),
         },
     ),
 }
+
+CONTRACTS["DiGraph.successors"] = dict(
+    params=["self", "n"], returns="List[Node]", assumed=True, fresh_result=True, pure=True,
+    ensures=[("edges", "forall(lambda y: (y in result) == E(self, n, y))")])
+
+# ---------------------------------------------------------------- graph construction view: edges as a ghost set
+OBJ_CLASSES["DiGraph"] = {"g_edges": "Set[Any]"}
+MODULES["DiGraph"] = None
+
+
+def chain_ok(ch, ranks):
+    """StartLoop, Loop(r1..rn), Body, EndLoop(rn..r1), Footer"""
+    return (len(ch) == 2 * len(ranks) + 3
+            and ch[0] == OtherNode("StartLoop")
+            and all(ch[1 + t] == LoopNode(ranks[t]) for t in range(len(ranks)))
+            and ch[len(ranks) + 1] == OtherNode("Body")
+            and all(ch[len(ranks) + 2 + t] == EndLoopNode(ranks[len(ranks) - 1 - t]) for t in range(len(ranks)))
+            and ch[2 * len(ranks) + 2] == OtherNode("Footer"))
+
+
+CONTRACTS.update({
+    "DiGraph.add_edge": dict(
+        params=["self", "u", "v"], returns="None", assumed=True,
+        modifies=["self.g_edges[]"],
+        ensures=[("added", "(u, v) in self.g_edges"),
+                 ("monotone", "all(e in self.g_edges for e in old(self.g_edges))")]),
+    "nx.topological_sort": dict(
+        params=["g"], returns="List[Node]", assumed=True, fresh_result=True, pure=True,
+        ensures=[("topological", "topo(g, result)")]),
+    "FlowGraph.__sort": dict(
+        modifies=["self.sorted"],
+        ensures=[("topological", "topo(self.graph, self.sorted)")],
+    ),
+    "FlowGraph.__build_loop_nest": dict(
+        modifies=["self.graph.g_edges[]"],
+        fresh_result=True,
+        ensures=[
+            ("chain_shape", "chain_ok(result, loop_ranks(self))"),
+            ("chain_edges", "all((result[t], result[t + 1]) in self.graph.g_edges for t in range(len(result) - 1))"),
+            ("graphics_before_loops", "(OtherNode('Graphics'), OtherNode('StartLoop')) in self.graph.g_edges "
+                                      "and (OtherNode('Output'), OtherNode('Graphics')) in self.graph.g_edges"),
+            ("only_adds_edges", "all(e in self.graph.g_edges for e in old(self.graph.g_edges))"),
+        ],
+        loops={
+            0: dict(idx="k0", inv=[("prefix", "len(chain) == 1 + k0 and chain[0] == OtherNode('StartLoop') and "
+                                             "all(chain[1 + t] == LoopNode(loop_order[t]) for t in range(k0))")]),
+            1: dict(idx="k1", inv=[("prefix", "len(chain) == len(loop_order) + 2 + k1 and chain[0] == OtherNode('StartLoop') and "
+                                             "all(chain[1 + t] == LoopNode(loop_order[t]) for t in range(len(loop_order))) and "
+                                             "chain[len(loop_order) + 1] == OtherNode('Body') and "
+                                             "all(chain[len(loop_order) + 2 + t] == EndLoopNode(loop_order[len(loop_order) - 1 - t]) "
+                                             "    for t in range(k1))")]),
+            2: dict(idx="k2", modifies=["self.graph.g_edges[]"],
+                    inv=[("edges_so_far", "all((chain[t], chain[t + 1]) in self.graph.g_edges for t in range(k2))"),
+                         ("monotone", "all(e in self.graph.g_edges for e in old(self.graph.g_edges))")]),
+            3: dict(idx="k3", modifies=["metrics_chain[]"], inv=[]),
+            4: dict(idx="k4", modifies=["metrics_chain[]"], inv=[]),
+            5: dict(idx="k5", modifies=["self.graph.g_edges[]"],
+                    inv=[("j", "0 <= j and j <= 1"),
+                         ("chain_edges_kept", "all((chain[t], chain[t + 1]) in self.graph.g_edges for t in range(len(chain) - 1))"),
+                         ("graphics_kept", "(OtherNode('Graphics'), OtherNode('StartLoop')) in self.graph.g_edges "
+                                           "and (OtherNode('Output'), OtherNode('Graphics')) in self.graph.g_edges"),
+                         ("monotone", "all(e in self.graph.g_edges for e in old(self.graph.g_edges))")]),
+        },
+    ),
+})
+
+
+# ---------------------------------------------------------------- HiFiber.__trans_nodes: bracket structure
+OBJ_CLASSES["HiFiber"] = {
+    "program": "Program", "metrics": "Optional[Metrics]", "graphics": "Graphics", "partitioner": "Partitioner",
+    "header": "Header", "graph": "IterationGraph", "eqn": "TransEquation", "collector": "Collector",
+    "trans_utils": "TransUtils", "fusion": "Fusion", "hardware": "Optional[Hardware]", "format": "Optional[Format]",
+    "hifiber": "SBlock",
+}
+ASSUMPTIONS.append(
+    "assumed frames of the translators called by HiFiber.__trans_nodes (Equation/Header/Partitioner/Collector/"
+    "Graphics/Footer make_* methods, IterationGraph.peek/pop_concord): they do not touch the node list and may raise "
+    "ValueError; what they emit is the subject of C07/C09, not of the bracket contract")
+
+
+def _stmt(params, static=False):
+    return dict(params=([] if static else ["self"]) + params, assumed=True, returns="Statement", modifies=[],
+                raises={"ValueError": None})
+
+
+def bracket_post(B, a, n, r):
+    """r is just past the first EndLoop that closes the region starting at a, or the list ran out"""
+    return ((r >= 1 and r <= n and pdepth(B, a + r) == pdepth(B, a) - 1
+             and all(pdepth(B, k) >= pdepth(B, a) for k in range(a, a + r)))
+            or (r == n and all(pdepth(B, k) >= pdepth(B, a) for k in range(a, a + n + 1))))
+
+
+CONTRACTS.update({
+    "SBlock.__init__": dict(params=["self", "stmts"], assumed=True, returns="None", modifies=[]),
+    "SBlock.add": dict(params=["self", "stmt"], assumed=True, returns="None", modifies=[]),
+    "SFor.__init__": dict(params=["self", "payload", "expr", "body"], assumed=True, returns="None", modifies=[]),
+    "TransEquation.make_eager_inputs": _stmt(["rank", "tensors"]),
+    "TransEquation.make_interval": _stmt(["rank"]),
+    "TransEquation.make_iter_expr": dict(params=["self", "rank", "tensors"], assumed=True, returns="Expression",
+                                         modifies=[], raises={"ValueError": None}),
+    "TransEquation.make_payload": dict(params=["self", "rank", "tensors"], assumed=True, returns="Payload",
+                                       modifies=[], raises={"ValueError": None}),
+    "TransEquation.make_update": _stmt([]),
+    "Header.make_tensor_from_fiber": _stmt(["tensor"], static=True),
+    "Header.make_get_root": _stmt(["tensor"], static=True),
+    "Header.make_get_payload": _stmt(["tensor", "ranks"]),
+    "Header.make_output": _stmt([]),
+    "Header.make_swizzle": _stmt(["tensor", "ranks", "type_"]),
+    "Footer.make_footer": _stmt(["program", "graphics", "partitioner"], static=True),
+    "Graphics.make_body": _stmt([]),
+    "Graphics.make_header": _stmt([]),
+    "Collector.make_body": _stmt([]),
+    "Collector.dump": _stmt([]),
+    "Collector.end": _stmt([]),
+    "Collector.start": _stmt([]),
+    "Collector.make_loop_footer": _stmt(["rank"]),
+    "Collector.make_loop_header": _stmt(["rank"]),
+    "Partitioner.partition": _stmt(["tensor", "ranks"]),
+    "IterationGraph.peek_concord": dict(params=["self"], assumed=True, returns="Tuple[Optional[str], List[OpaqueTensor]]",
+                                        modifies=[]),
+    "IterationGraph.pop_concord": dict(params=["self"], assumed=True, returns="Tuple[Optional[str], List[OpaqueTensor]]",
+                                       modifies=[]),
+    "Program.get_equation": dict(params=["self"], returns="IrEquation", assumed=True, observer=True),
+    "IrEquation.get_tensor": dict(params=["self", "name"], returns="OpaqueTensor", assumed=True, modifies=[],
+                                  raises={"ValueError": None}),
+    "OpaqueTensor.from_fiber": dict(params=["self"], returns="None", assumed=True, modifies=[]),
+
+    "HiFiber.__trans_nodes": dict(
+        aliases={"Equation": "TransEquation"},
+        ghost_params={"B": "List[Node]", "a": "int"},
+        requires=[("suffix_of_B", "a >= 0 and len(nodes) == len(B) - a and "
+                                  "all(nodes[t] == B[a + t] for t in range(len(nodes)))")],
+        raises={"ValueError": None},
+        modifies=[],
+        ghost_call_args={"HiFiber.__trans_nodes": {"B": "B", "a": "a + i + 1"}},
+        ghost_after={"node = nodes[i]": "unfold_pdepth(B, a + i)\n"},
+        ensures=[("bracket", "bracket_post(B, a, len(nodes), result[0])"),
+                 ("range", "0 <= result[0] and result[0] <= len(nodes)")],
+        loops={0: dict(inv=[
+            ("bounds", "0 <= i and i <= len(nodes)"),
+            ("level", "pdepth(B, a + i) == pdepth(B, a) or i == len(nodes)"),
+            ("never_below", "all(pdepth(B, k) >= pdepth(B, a) for k in range(a, a + i + 1))")])},
+    ),
+})
+
+
+# ---------------------------------------------------------------- native side (refuter / bounded stand-in)
+def native_globals():
+    import networkx as nx
+    from teaal.ir import flow_nodes
+    g = {n: getattr(flow_nodes, n) for n in NODE_CLASSES}
+    g["E"] = lambda gr, a, b: gr.has_edge(a, b)
+    g["Desc"] = lambda gr, a, b: b in nx.descendants(gr, a)
+
+    def pdepth(B, k):
+        d = 0
+        for x in B[:k]:
+            d += 1 if isinstance(x, flow_nodes.LoopNode) else (-1 if isinstance(x, flow_nodes.EndLoopNode) else 0)
+        return d
+    g["pdepth"] = pdepth
+    return g
+
+
+class _LO:
+    def __init__(self, ranks):
+        self.ranks = ranks
+
+    def get_ranks(self):
+        return self.ranks
+
+
+class _Prog:
+    def __init__(self, ranks):
+        self.lo = _LO(ranks)
+
+    def get_loop_order(self):
+        return self.lo
+
+
+def _small_graphs(seed=0, count=400):
+    """random small DAGs around a loop chain, with a random topological order"""
+    import random
+    import networkx as nx
+    from teaal.ir.flow_nodes import LoopNode, EndLoopNode, OtherNode, FiberNode, SwizzleNode, GetRootNode
+    from teaal.ir.flow_graph import FlowGraph
+
+    class G(nx.DiGraph):
+        g_edges = property(lambda s: set(s.edges()))
+    rnd = random.Random(seed)
+    for _ in range(count):
+        nr = rnd.randint(1, 3)
+        ranks = ["R%d" % i for i in range(nr)]
+        g = G()
+        chain = [OtherNode("Graphics")] + [LoopNode(r) for r in ranks] + [OtherNode("Body")] + \
+                [EndLoopNode(r) for r in reversed(ranks)] + [OtherNode("Footer")]
+        for a, b in zip(chain, chain[1:]):
+            g.add_edge(a, b)
+        extra = [FiberNode("f%d" % i) for i in range(rnd.randint(0, 4))] + \
+                [GetRootNode("T%d" % i, ["A"]) for i in range(rnd.randint(0, 2))]
+        order = list(chain)
+        for x in extra:
+            # attach below a random chain node and (maybe) above a later one / another extra
+            pos = rnd.randrange(len(order))
+            g.add_edge(order[pos], x) if rnd.random() < 0.7 else g.add_node(x)
+            later = [y for y in order[pos + 1:]]
+            if later and rnd.random() < 0.6:
+                g.add_edge(x, rnd.choice(later))
+            order.insert(pos + 1, x)
+        topo_orders = list(nx.topological_sort(g))
+        # a random topological order: repeatedly pick a random source
+        h = g.copy()
+        srt = []
+        while h.number_of_nodes():
+            srcs = [n for n in h.nodes() if h.in_degree(n) == 0]
+            n = rnd.choice(sorted(srcs, key=repr))
+            srt.append(n)
+            h.remove_node(n)
+        fg = object.__new__(FlowGraph)
+        fg.graph, fg.sorted, fg.program, fg.metrics = g, srt, _Prog(ranks), None
+        yield fg, ()
+
+
+def _gen_trans_prefix():
+    return iter(())
+
+
+GEN = {"FlowGraph.__hoist": _small_graphs}
